@@ -2,10 +2,12 @@
 from __future__ import annotations
 
 import ast
+import copy
 import re
 from typing import Dict, List, Optional, Set, Tuple
 
 from ..callgraph import all_nodes
+from ..cfg import conj_atoms
 from ..core import Ctx
 from ..flow import call_name, get_flow
 from ..project import AnalysisError, FuncInfo, ancestors, dotted, parent, src
@@ -161,6 +163,13 @@ def r2(ctx: Ctx):
         kind = 'AmountCondition' if 'amount_conditions' in src(lp.iter) else 'DateCondition' if 'date_conditions' in src(lp.iter) else None
         if kind is None:
             continue
+        if isinstance(lp.target, ast.Name) and lp.target.id != 'cond':
+            # the rules below are written on a loop variable called `cond`
+            lp = copy.deepcopy(lp)
+            var = lp.target.id
+            for n in ast.walk(lp):
+                if isinstance(n, ast.Name) and n.id == var:
+                    n.id = 'cond'
         branches = {}
         generic = None
         cur = lp.body[0] if lp.body and isinstance(lp.body[0], ast.If) else None
@@ -286,8 +295,41 @@ def r3(ctx: Ctx, tables) -> None:
     ok = any(src(r.value).replace(' ', '') == "'and'.join(conditions)" or src(r.value) == "' and '.join(conditions)" for r in rets)
     ctx.check(ok, 'C14.R3', conv, 'conjunction', 'modifier conditions are joined with `and` (legacy: all must hold)', 'modifier conditions are not AND-ed')
     cac = proj.func('modifier_parser.check_all_conditions')
-    n_false = sum(1 for r in ast.walk(cac.node) if isinstance(r, ast.Return) and isinstance(r.value, ast.Constant) and r.value.value is False)
-    ctx.check(n_false >= 4, 'C14.R3', cac, 'legacy-conjunction', 'legacy check: every amount and date condition must hold', 'legacy check_all_conditions is not a conjunction')
+    # every evaluate_*_condition call must be *required*: its being false leads to `return False`, directly (`if not ev(…): return False` in a loop)
+    # or through all(… and ev(…) for …) whose value is required in the same sense or returned
+    def returns_false(body):
+        return bool(body) and isinstance(body[-1], ast.Return) and isinstance(body[-1].value, ast.Constant) and body[-1].value.value is False
+
+    def required(e, depth=0) -> Optional[bool]:
+        """True: e false => the function returns False; False: recognised position, but not required; None: position not recognised"""
+        verdict = None
+        for n in ast.walk(cac.node):
+            if isinstance(n, ast.If) and any(x is e for x in ast.walk(n.test)):
+                if returns_false(n.body) and any(a is e and tr for a, tr in conj_atoms(n.test, False)):
+                    return True
+                verdict = False
+            elif isinstance(n, ast.Return) and n.value is not None and any(x is e for x in ast.walk(n.value)):
+                if any(a is e and tr for a, tr in conj_atoms(n.value, True)):
+                    return True
+                verdict = False
+            elif isinstance(n, (ast.GeneratorExp, ast.ListComp)) and any(x is e for x in ast.walk(n.elt)):
+                holder = parent(n)
+                if isinstance(holder, ast.Call) and call_name(holder) == 'all' and any(a is e and tr for a, tr in conj_atoms(n.elt, True)) and depth < 3:
+                    return required(holder, depth + 1)
+                verdict = False
+            elif isinstance(n, ast.Assign) and n.value is e and len(n.targets) == 1 and isinstance(n.targets[0], ast.Name) and depth < 3:
+                uses = [x for x in ast.walk(cac.node) if isinstance(x, ast.Name) and x.id == n.targets[0].id and isinstance(x.ctx, ast.Load)]
+                vs = [required(u, depth + 1) for u in uses]
+                return True if uses and all(v is True for v in vs) else (None if any(v is None for v in vs) or not uses else False)
+        return verdict
+    evs = [c for c in ast.walk(cac.node) if isinstance(c, ast.Call) and call_name(c) in ('evaluate_amount_condition', 'evaluate_date_condition')]
+    if {call_name(c) for c in evs} != {'evaluate_amount_condition', 'evaluate_date_condition'}:
+        ctx.unknown('C14.R3', cac, 'check_all_conditions does not call both condition evaluators any more')
+    verdicts = [required(c) for c in evs]
+    if any(v is None for v in verdicts) and not any(v is False for v in verdicts):
+        ctx.unknown('C14.R3', cac, 'an evaluate_*_condition call sits in a position the rule does not know (not an if test, a return value or an all(…))')
+    ctx.check(all(v is True for v in verdicts), 'C14.R3', cac, 'legacy-conjunction', 'legacy check: every amount and date condition must hold',
+              'legacy check_all_conditions is not a conjunction: an evaluate_*_condition result that is false does not lead to `return False`')
     # the regex part: searched, case-insensitively, on both sides
     nm = proj.func('merchant_utils.normalize_merchant')
     legacy = [c for c in ast.walk(nm.node) if isinstance(c, ast.Call) and dotted(c.func) == 're.search']
@@ -341,7 +383,9 @@ def r5(ctx: Ctx) -> None:
         js = [x for x in all_nodes(f.node) if isinstance(x, ast.JoinedStr) and any(k == 'const' and v.startswith('regex(') for k, v in fparts(x))]
         mod = [c for c in ast.walk(f.node) if isinstance(c, ast.Call) and call_name(c) == '_modifier_to_expr']
         joins = [c for c in ast.walk(f.node) if isinstance(c, ast.Call) and src(c.func) == "' and '.join"]
-        default = [n for n in ast.walk(f.node) if isinstance(n, ast.IfExp) and isinstance(n.orelse, ast.Constant) and n.orelse.value == 'true']
+        # `x if parts else 'true'`, or the same thing written as a statement
+        default = [n for n in ast.walk(f.node) if (isinstance(n, ast.IfExp) and isinstance(n.orelse, ast.Constant) and n.orelse.value == 'true')
+                   or (isinstance(n, (ast.Assign, ast.Return)) and isinstance(n.value, ast.Constant) and n.value.value == 'true')]
         tmpl = ''.join(v if k == 'const' else '{}' for k, v in fparts(js[0])) if js else None
         shapes[qn] = (tmpl, bool(mod), bool(joins), bool(default))
     a, b = shapes[CONVERTERS[0]], shapes[CONVERTERS[1]]
